@@ -26,6 +26,15 @@ func init() {
 	registry["C02"] = append(registry["C02"], Suite{Name: "murmur", NewMachine: func() Machine { return &cuckooMem{} }, Gen: genMurmur,
 		OpName: cuckooOpName, Rule: "murmur3 model vs getHash on random strings of every length 0..48", Quick: 20, Thorough: 400})
 
+	machineByID[9] = func() Machine { return &topkMem{} }
+	registry["C04"] = []Suite{
+		{Name: "topk-mem", NewMachine: func() Machine { return &topkMem{} }, Gen: genC04,
+			Monitors: []Monitor{monitorTopK("mem")}, OpName: topkOpName,
+			Nontrivial: func(r *RunResult) bool { return countOps(r, tkInsert) >= 4 },
+			Rule: ">=4 inserts (repeated keys, ties, narrow sketches) with Values() observed in between; distinct by SHA-1",
+			Quick: 300, Thorough: 5000},
+	}
+
 	registry["C01"] = []Suite{
 		{Name: "bloom-mem", NewMachine: func() Machine { return &bloomMem{} }, Gen: genC01,
 			Monitors: []Monitor{monitorBloom("mem")}, OpName: bloomOpName,
